@@ -13,6 +13,10 @@ use std::sync::OnceLock;
 struct Setup {
     prop: &'static dyn Property,
     known: HashSet<String>,
+    /// prefixes of the property's *random* segments: the enumerated segments are
+    /// complete in the seeded engine and contain multi-gigabyte cases that do
+    /// not belong inside an instrumented fuzzing process
+    prefixes: Vec<Vec<u8>>,
 }
 
 fn setup() -> &'static Setup {
@@ -39,13 +43,14 @@ fn setup() -> &'static Setup {
             }
         }
         engine::install_panic_hook();
-        Setup { prop, known }
+        let prefixes = prop.plan(Tier::Quick).into_iter().filter(|s| !s.is_enumerated()).map(|s| s.prefix).collect();
+        Setup { prop, known, prefixes }
     })
 }
 
 fuzz_target!(|data: &[u8]| {
     let s = setup();
-    if data.is_empty() {
+    if data.is_empty() || !s.prefixes.iter().any(|p| data.starts_with(p)) {
         return;
     }
     let mut cx = Ctx::new(false, "fuzz", Tier::Quick, &s.known, false);
